@@ -69,6 +69,9 @@ pub struct Report {
   pub distinct: BTreeSet<String>,
   pub counters: std::collections::BTreeMap<String, u64>,
   pub max_mismatches: usize,
+  /// Deviations from the deterministic reference specification that do NOT contradict the property (judging relation
+  /// is weaker than the reference): reported, never a violation.
+  pub drift: Vec<Value>,
 }
 
 impl Report {
@@ -105,8 +108,20 @@ impl Report {
       }));
     }
   }
+  /// The real code deviates from the code-shaped reference spec in a way the property allows.
+  pub fn reference_drift(&mut self, key: &str, case: &Value, expected: Value, observed: Value) {
+    self.count("reference_drift");
+    if self.drift.len() < 5 {
+      self.drift.push(json!({"key": key, "case": case, "reference": expected, "observed": observed}));
+    }
+  }
   pub fn merge(&mut self, other: Report) {
     self.evaluations += other.evaluations;
+    for d in other.drift {
+      if self.drift.len() < 5 {
+        self.drift.push(d);
+      }
+    }
     for m in other.mismatches {
       if self.mismatches.len() < self.max_mismatches {
         self.mismatches.push(m);
@@ -128,6 +143,7 @@ impl Report {
       "mismatches_total": self.counters.get("mismatches_total").copied().unwrap_or(0),
       "samples": self.samples,
       "counters": self.counters,
+      "reference_drift": self.drift,
     });
     let mut f = std::fs::File::create(path).unwrap_or_else(|e| tool_error(&format!("cannot write {path}: {e}")));
     f.write_all(serde_json::to_string_pretty(&v).unwrap().as_bytes()).unwrap();
